@@ -309,5 +309,37 @@ def r6_memo(chk: Check) -> None:
                                   gp.loc(c))
 
 
+def r7_not_shapes_agree(chk: Check) -> None:
+    chk.rule("C02.R7", "PRODUCER/CONSUMER(shape of `not` after the readOnly / writeOnly conversion x type mutation): the converter writes `not: {required: [...]}` or `not: {anyOf: [{required: [a]}, ...]}`; when `change_type` gives the schema another type, prevent_unsatisfiable_schema has to strip object-only keywords from EVERY shape the converter can produce - a variant left as `{required: [a]}` under `anyOf` matches every non-object, so `not` rejects everything and the mutated schema is unsatisfiable (no negative data, slow rejection sampling)", floor=1)
+    P = chk.project
+    conv = P.module("specs/openapi/converter.py")
+    produced: set[str] = set()
+    for fn in conv.functions.values():
+        if isinstance(fn.node, ast.Lambda):
+            continue
+        for st_ in walk_body(fn.node):
+            # schema["not"] = {...}  /  not_schema = schema.setdefault("not", {}) ; not_schema["required"] = ...
+            if isinstance(st_, ast.Assign) and any(isinstance(t, ast.Subscript) and const_str(t.slice) == "not" for t in st_.targets) and isinstance(st_.value, ast.Dict):
+                produced |= {k.value for k in st_.value.keys if isinstance(k, ast.Constant) and isinstance(k.value, str)}
+        nots = {name_of(b, "v") for n_, b in pfind("$v = $s.setdefault('not', $_)", fn.node)}
+        for st_ in walk_body(fn.node):
+            if isinstance(st_, ast.Assign) and any(isinstance(t, ast.Subscript) and isinstance(t.value, ast.Name) and t.value.id in nots and isinstance(t.slice, ast.Constant) for t in st_.targets):
+                produced |= {t.slice.value for t in st_.targets if isinstance(t, ast.Subscript) and isinstance(t.slice, ast.Constant)}
+    cons = P.func("specs/openapi/negative/mutations.py:prevent_unsatisfiable_schema")
+    body = unparse(cons.node, 5000)
+    construct = f"prevent_unsatisfiable_schema cleans every `not` shape the converter produces {sorted(produced)}"
+    if not produced:
+        chk.undecided("C02.R7", conv.relpath, construct, "no store under `not` found in the converter", conv.relpath)
+        return
+    nested = {"anyOf", "oneOf", "allOf"} & produced
+    missing = [k for k in nested if f"'{k}'" not in body and f'"{k}"' not in body]
+    if missing:
+        chk.violation("C02.R7", cons, construct,
+                      f"the converter can emit `not: {{{missing[0]}: [{{required: [a]}}, ...]}}` but the clean-up after a type change only strips keywords directly under `not`: `{{type: array, not: {{{missing[0]}: [{{required: [id]}}, ...]}}}}` is unsatisfiable (52 of 300 mutated schemas)",
+                      cons.loc())
+    else:
+        chk.ok("C02.R7", cons, construct, "", cons.loc())
+
+
 def rules(tier: str) -> list:  # type: ignore[type-arg]
-    return [r1_invalidity_filter, r2_factory_label, r3_something_negated, r4_labels, r5_mutations, r6_memo]
+    return [r1_invalidity_filter, r2_factory_label, r3_something_negated, r4_labels, r5_mutations, r6_memo, r7_not_shapes_agree]
